@@ -21,17 +21,17 @@ SpecCompress(v, L) ==
 \* Decompress machine state: [ok, idx (0-based cursor), v, why]
 DecInit == [ok |-> TRUE, idx |-> 0, v |-> <<>>, why |-> "ok"]
 \* action ReadCoeff on bit array `bits` of length nbits
-ReadCoeff(st, bits, nbits) ==
+ReadCoeffH(st, bits, nbits, hm) ==
   IF ~st.ok THEN st
   ELSE IF st.idx + 9 > nbits THEN [st EXCEPT !.ok = FALSE, !.why = "truncated"]
   ELSE LET sgn == bits[st.idx + 1]
            low == FieldB(bits, st.idx + 1, 7)
            \* candidates for the terminating 1 of the unary run
-           ks == {k \in 0..HighMax : st.idx + 8 + k < nbits /\ bits[st.idx + 8 + k + 1] = 1}
+           ks == {k \in 0..hm : st.idx + 8 + k < nbits /\ bits[st.idx + 8 + k + 1] = 1}
        IN IF ks = {} THEN [st EXCEPT !.ok = FALSE,
-                                     !.why = IF st.idx + 8 + HighMax < nbits THEN "run-too-long" ELSE "unterminated"]
+                                     !.why = IF st.idx + 8 + hm < nbits THEN "run-too-long" ELSE "unterminated"]
           ELSE LET k == Min(ks)  mag == 128 * k + low
-               IN IF k >= HighMax THEN [st EXCEPT !.ok = FALSE, !.why = "run-too-long"]
+               IN IF k >= hm THEN [st EXCEPT !.ok = FALSE, !.why = "run-too-long"]
                   ELSE IF mag = 0 /\ sgn = 1 THEN [st EXCEPT !.ok = FALSE, !.why = "minus-zero"]
                   ELSE [ok |-> TRUE, idx |-> st.idx + 9 + k,
                         v |-> Append(st.v, IF sgn = 1 THEN -mag ELSE mag), why |-> "ok"]
@@ -41,11 +41,13 @@ CheckPadding(st, bits, nbits) ==
   ELSE IF \A j \in st.idx..(nbits - 1) : bits[j + 1] = 0 THEN st
   ELSE [st EXCEPT !.ok = FALSE, !.why = "padding"]
 
-\* Algorithm 18: [ok, v, why] for byte string x and n coefficients
-SpecDecompress(x, n) ==
+\* Algorithm 18: [ok, v, why] for byte string x and n coefficients; hm = smallest rejected run length
+SpecDecompressH(x, n, hm) ==
   LET bits == BitArr(x)  nbits == 8 * Len(x)
-      r == FoldRange(LAMBDA st, i : ReadCoeff(st, bits, nbits), DecInit, 1, n)
+      r == FoldRange(LAMBDA st, i : ReadCoeffH(st, bits, nbits, hm), DecInit, 1, n)
       f == CheckPadding(r, bits, nbits)
   IN IF n = 0 THEN [ok |-> FALSE, v |-> <<>>, why |-> "empty"]
      ELSE [ok |-> f.ok, v |-> IF f.ok THEN f.v ELSE <<>>, why |-> f.why]
+ReadCoeff(st, bits, nbits) == ReadCoeffH(st, bits, nbits, HighMax)
+SpecDecompress(x, n) == SpecDecompressH(x, n, HighMax)
 =====================================================================
